@@ -34,6 +34,7 @@ import (
 	"github.com/bytedance/sonic/ast"
 	"github.com/bytedance/sonic/decoder"
 	"github.com/bytedance/sonic/encoder"
+	"github.com/bytedance/sonic/option"
 	"github.com/bytedance/sonic/verifx"
 
 	"verif/harness/internal/jgen"
@@ -1332,6 +1333,74 @@ func runPreorder() {
 	}
 }
 
+// ---- proglen: length of the compiled decoder / encoder program of n-fold nested container types (type-dependent cost)
+
+func nestType(kind string, n int) reflect.Type {
+	t := reflect.TypeOf(int(0))
+	for i := 0; i < n; i++ {
+		switch kind {
+		case "slice":
+			t = reflect.SliceOf(t)
+		case "array":
+			t = reflect.ArrayOf(2, t)
+		case "map":
+			t = reflect.MapOf(reflect.TypeOf(""), t)
+		case "ptr":
+			t = reflect.PtrTo(t)
+		case "slice-of-map":
+			if i%2 == 0 {
+				t = reflect.MapOf(reflect.TypeOf(""), t)
+			} else {
+				t = reflect.SliceOf(t)
+			}
+		}
+	}
+	return t
+}
+
+func runProgLen() {
+	w := out.Create(*outp)
+	defer w.Close()
+	name := func(t reflect.Type) string { return t.String() }
+	for _, kind := range []string{"slice", "array", "map", "ptr", "slice-of-map"} {
+		for d := 1; d <= 9; d++ {
+			t := nestType(kind, d)
+			dl, el := -1, -1
+			if txt, err := verifx.DecoderProgram(t); err == nil {
+				dl = strings.Count(txt, ";") + 1
+			}
+			if txt, err := verifx.EncDumpProgram(t, false, option.DefaultCompileOptions(), name); err == nil {
+				el = strings.Count(txt, "\n") + 1
+			}
+			w.Line("L", kind, out.Itoa(d), out.Itoa(dl), out.Itoa(el))
+		}
+	}
+	// first-use wall time of the real entry points for a 12-fold nested slice (fresh types: never compiled before)
+	if *tier == "quick" {
+		return
+	}
+	for _, d := range []int{10, 12} {
+		t := nestType("slice", d)
+		doc := strings.Repeat("[", d) + "1" + strings.Repeat("]", d)
+		t0 := time.Now()
+		_ = sonic.UnmarshalString(doc, reflect.New(t).Interface())
+		du := time.Since(t0)
+		t0 = time.Now()
+		_, _ = sonic.Marshal(reflect.New(reflect.SliceOf(reflect.TypeOf(int8(0)))).Interface())
+		v := reflect.New(nestType("slice", d)).Elem()
+		_ = v
+		tm := reflect.TypeOf(int16(0))
+		for i := 0; i < d; i++ {
+			tm = reflect.SliceOf(tm)
+		}
+		t1 := time.Now()
+		_, _ = sonic.Marshal(reflect.New(tm).Interface())
+		dm := time.Since(t1)
+		_ = t0
+		w.Line("T", "slice", out.Itoa(d), fmt.Sprint(du.Milliseconds()), fmt.Sprint(dm.Milliseconds()))
+	}
+}
+
 // ---- deep cases
 
 type deepCase struct {
@@ -1622,6 +1691,8 @@ func main() {
 		runBounds()
 	case "preorder":
 		runPreorder()
+	case "proglen":
+		runProgLen()
 	case "fuzz":
 		runFuzz()
 	case "deep":
